@@ -141,14 +141,15 @@ Definition spec_numeral (signed : bool) (lo hi : Z) (r : N) (s : str) : option Z
 Definition sopt (mk : Z -> val) (o : option Z) : sres :=
   match o with Some z => SVal (mk z) | None => SVal VNil end.
 
-(* parse_int / parse_bigint: decimal; a leading 0x means hexadecimal (the language's own literal syntax) *)
+(* parse_int / parse_bigint: decimal; a leading 0x means hexadecimal (the language's own literal syntax).
+   The prefix announces DIGITS: a sign after it ("0x-1F") makes the text no number at all (prefix_0x) *)
 Definition spec_parse_int (s : str) : sres :=
-  match strip_0x s with
+  match prefix_0x s with
   | Some t => sopt VInt (spec_numeral true i32_min i32_max 16 t)
   | None => sopt VInt (spec_numeral true i32_min i32_max 10 s)
   end.
 Definition spec_parse_bigint (s : str) : sres :=
-  match strip_0x s with
+  match prefix_0x s with
   | Some t => sopt VBig (spec_numeral true i128_min i128_max 16 t)
   | None => sopt VBig (spec_numeral true i128_min i128_max 10 s)
   end.
@@ -159,7 +160,7 @@ Definition spec_parse_bigint (s : str) : sres :=
 Definition spec_parse_radix (mk : Z -> val) (lo hi : Z) (s : str) (radix : Z) : sres :=
   if (2 <=? radix) && (radix <=? 36) then
     sopt mk (spec_numeral true lo hi (Z.to_N radix)
-               (match strip_0x s with Some t => if radix =? 16 then t else s | None => s end))
+               (match prefix_0x s with Some t => if radix =? 16 then t else s | None => s end))
   else SFail.
 Definition spec_parse_int_radix := spec_parse_radix VInt i32_min i32_max.
 Definition spec_parse_bigint_radix := spec_parse_radix VBig i128_min i128_max.
@@ -170,7 +171,7 @@ Definition spec_parse_bool (s : str) : sres :=
 
 (* parse_byte: 0b + binary digits, or decimal; 0..255 *)
 Definition spec_parse_byte (s : str) : sres :=
-  match strip_0b s with
+  match prefix_0b s with
   | Some t => sopt VByte (spec_numeral false 0 255 2 t)
   | None => sopt VByte (spec_numeral false 0 255 10 s)
   end.
